@@ -34,22 +34,24 @@ RG = "gmlc::libguarded::rcu_guarded"
 
 def run(ctx):
     ctx.step(register, ctx)
-    ctx.step(unlink_first, ctx)
+    ctx.step(unlink_first, ctx, "C05.unlink-first", False)
+    ctx.step(no_early_free, ctx)
     ctx.step(reclaim, ctx)
-    ctx.step(c13.uaf, ctx, "C05.uaf", [f for f in ctx.fb.functions() if f.file.endswith("/rcu_list.hpp")], floor=20)
+    ctx.step(c13.uaf, ctx, "C05.uaf", [f for f in ctx.fb.functions() if f.file.endswith("/rcu_list.hpp")], floor=20,
+             kinds=("erased", "deleted", "deallocated"))
     ctx.step(who, ctx)
     ctx.step(common.rcu_writer_guard, ctx, "C05.wmutex")
     ctx.step(common.atomic_floors, ctx, "C05.orders", [RCU, NODE, ZLN], floor=30, files=["rcu_list.hpp"])
     ctx.step(common.witnesses, ctx, "C05.witness", ["C05"])
 
 
-def register(ctx, rid="C05.register"):
+def register(ctx, rid="C05.register", handles=True, record=True):
     ctx.rule(rid, "handles register before handing out the list and unregister iff registered; the log record is "
              "complete (owner, next) before the CAS publishes it", floor=16)
     fb = ctx.fb
     n = 0
     for hc, lockfn, unlockfn in ((RG + "::read_handle", "rcu_read_lock", "rcu_read_unlock"),
-                                 (RG + "::write_handle", "rcu_write_lock", "rcu_write_unlock")):
+                                 (RG + "::write_handle", "rcu_write_lock", "rcu_write_unlock")) if handles else ():
         for f in fb.functions(rec=hc):
             if f.name in ("operator*", "operator->"):
                 n += 1
@@ -85,7 +87,7 @@ def register(ctx, rid="C05.register"):
                     preds = f.blocks[b].preds
                     ok = len(preds) == 1 and path(f, f.s((f.blocks[preds[0]].term or {}).get("cond"))) == "this.m_accessed"
                     ctx.ob(rid, ok, f.where, "a registered handle always unregisters in its destructor", "", fn=f.label, inst=f.qname)
-    for f in fb.functions(rec=RG):
+    for f in (fb.functions(rec=RG) if handles else ()):
         if f.kind in ("ctor", "dtor"):
             continue
         for st in field_refs(f, RG):
@@ -101,7 +103,7 @@ def register(ctx, rid="C05.register"):
                 ok = ok and acc == "addr-const"
             ctx.ob(rid, ok, f.loc(st), "rcu_guarded::m_obj escapes only into a handle constructor (const for lock_read)",
                    "" if ok else "use kind %s" % acc, fn=f.label, inst=f.qname)
-    for f in fb.functions(rec=GUARD, name="rcu_read_lock"):
+    for f in (fb.functions(rec=GUARD, name="rcu_read_lock") if record else ()):
         n += 1
         try:
             ps = all_paths(f)
@@ -133,7 +135,7 @@ def register(ctx, rid="C05.register"):
         ks = [k for _h, k, _d in classify_loops(f)]
         ok = ks == ["cas-retry"]
         ctx.ob(rid, ok, f.where, "registration retries until the CAS succeeds", "" if ok else str(ks), fn=f.label, inst=f.qname)
-    for f in fb.functions(rec=GUARD):
+    for f in (fb.functions(rec=GUARD) if handles else ()):
         if f.name in ("rcu_write_lock",):
             c = [st for st in f.stmts.values() if st["k"] == "CXXMemberCallExpr" and st["callee"]["name"] == "rcu_read_lock"]
             ctx.ob(rid, len(c) == 1, f.where, "write handles register like read handles", "", fn=f.label, inst=f.qname)
@@ -147,7 +149,7 @@ def register(ctx, rid="C05.register"):
         ctx.broken("rcu handles not instantiated")
 
 
-def unlink_first(ctx, rid="C05.unlink-first"):
+def unlink_first(ctx, rid="C05.unlink-first", strict_values=True):
     ctx.rule(rid, "erase: the node is unlinked from both neighbours (or head/tail) and marked deleted before the CAS that "
              "logs it; the logged record carries the erased node", floor=8)
     fs = list(ctx.fb.functions(rec=RCU, name="erase"))
@@ -177,12 +179,12 @@ def unlink_first(ctx, rid="C05.unlink-first"):
                    and not (e["obj"] or "").startswith(it)]
             bwd = [e for e in before if e["k"] == "astore" and e["fld"] in ((NODE, "back"), (RCU, "m_tail"))
                    and not (e["obj"] or "").startswith(it)]
-            ok = len(fwd) == 1 and len(bwd) == 1
+            ok = len(fwd) == 1 and (len(bwd) == 1 or not strict_values)
             ctx.ob(rid, ok, f.loc(cas[0]["st"]), "before the node is logged, the forward link into it (predecessor's next or "
-                   "m_head) and the backward link (successor's back or m_tail) are redirected",
+                   "m_head)%s redirected" % (" and the backward link (successor's back or m_tail) are" if strict_values else " is"),
                    "" if ok else "forward stores=%d backward stores=%d before the CAS: a reader that registers after the node "
                    "is logged can still walk into it" % (len(fwd), len(bwd)), fn=f.label, inst=f.qname)
-            if ok:
+            if ok and strict_values:
                 # values: forward link receives the erased node's next, backward link its back
                 nxt = [e for e in before if e["k"] == "aload" and e["obj"] == it + "->next"]
                 bck = [e for e in before if e["k"] == "aload" and e["obj"] == it + "->back"]
@@ -196,7 +198,9 @@ def unlink_first(ctx, rid="C05.unlink-first"):
             ok = len(dl) == 1
             ctx.ob(rid, ok, f.loc(cas[0]["st"]), "the node is marked deleted before it is logged", "", fn=f.label, inst=f.qname)
             cons = [e for e in before if e["k"] == "construct"]
-            ok = len(cons) == 1 and len(cons[0]["args"]) == 3 and cons[0]["args"][2] == it and \
+            itok = pe.tf.get(it)
+            ok = len(cons) == 1 and len(cons[0]["args"]) == 3 and \
+                (cons[0]["args"][2] == it or (cons[0]["toks"][2] is not None and cons[0]["toks"][2] == itok)) and \
                 all(c["desired"] == cons[0]["args"][1] for c in cas)
             ctx.ob(rid, ok, f.loc(cas[0]["st"]), "the logged record carries the erased node", "" if ok else
                    "construct args %s / CAS desired %s" % ([c["args"] for c in cons], [c["desired"] for c in cas]),
@@ -299,3 +303,26 @@ def who(ctx):
                     f.name in ("allocate_unique",) or f.rec == "gmlc::libguarded::detail::deallocator"
                 ctx.ob(rid, ok, f.loc(st), "list memory is freed only by unlock, ~rcu_list, deallocator and allocate_unique",
                        "" if ok else "freed in %s" % f.name, fn=f.label, inst=f.qname)
+
+
+def no_early_free(ctx):
+    """erase must not hand the unlinked node (which earlier readers may still stand on) to anything that destroys it:
+    no destroying smart pointer owns it, no destroy/deallocate of it inside erase - on any exit, exceptional ones
+    included (a unique_ptr deleter runs during unwinding)"""
+    rid = "C05.no-early-free"
+    ctx.rule(rid, "erase never gives the unlinked node to a destroying owner (it may only travel into the log record)", floor=2)
+    for f in ctx.fb.functions(rec=RCU, name="erase"):
+        it = "p:" + f.params[0]["name"] + ".m_current"
+        bad = None
+        for st in f.stmts.values():
+            if st["k"] in CTORS and st.get("t", "").startswith("std::unique_ptr<") and "deallocator" in st.get("t", "") and st["args"]:
+                if path(f, f.s(st["args"][0])) == it:
+                    bad = (st, "a unique_ptr with the destroy+deallocate deleter takes the erased node: if anything between here "
+                               "and the log push throws (e.g. the record allocation), the node is freed while earlier readers still reach it")
+            if st["k"] == "CallExpr" and re.match(r"^std::allocator_traits<.*>::(destroy|deallocate)$", callee_fq(st)) and \
+                    len(st["args"]) > 1 and path(f, f.s(st["args"][1])) == it:
+                bad = (st, "erase frees the node itself")
+            if st["k"] == "CXXDeleteExpr" and path(f, f.s(st["arg"])) == it:
+                bad = (st, "erase deletes the node itself")
+        ctx.ob(rid, bad is None, f.loc(bad[0]) if bad else f.where, "the erased node is only handed to the log",
+               bad[1] if bad else "", fn=f.label, inst=f.qname)
